@@ -1,6 +1,7 @@
 CONSTANTS Models = {1, 2} ParamSets = {1, 2} Inits = {1} Seeds = {1, 2} MaxFuncs = 2 Depth = 4
 SPECIFICATION ASpec
 INVARIANT NoHiddenState
+PROPERTY HeldChangedByUserOnly
 INVARIANT TermDependsOnArgumentsOnly
 INVARIANT CombinedIsSolveThenSimulate
 CONSTRAINT Bound
